@@ -87,7 +87,7 @@ def main():
         sys.exit(3)
     P = PROPS[pid]
     world = World()
-    reg = build_registry(w)
+    reg = build_registry(world)
     quals = list(P["functions"])
     nproc = max(1, min(len(quals), 12))
     os.environ.setdefault("PYVC_THREADS", "2")
@@ -140,8 +140,10 @@ def main():
 
     # ---- classify
     def excluded(o):
+        # only the exact obligations a finding lists are attributed to it (its region is excluded by assumption
+        # in the contracts, so on the unchanged tree these are discharged anyway; PYVC_NO_EXCLUDE=1 shows them failing)
         for k in open_findings:
-            if o["id"].startswith(k["obligation"]) or k["obligation"] in o["id"]:
+            if o["id"] in k.get("obligation_ids", []):
                 return k
         return None
     bad = [o for o in obligations if o["status"] != "discharged"]
